@@ -422,6 +422,45 @@ def _collect(tree: Any, singles: Set[int], bounds: Set[int]) -> None:
             _collect(arg[2], singles, bounds)
 
 
+def covers_surrogates(pattern: str) -> bool:
+    """
+    Tell whether a literal, a set or a complemented set / dot of the pattern can match a
+    surrogate code point (then a UTF-16 engine and a code point engine cannot agree
+    on astral text, whatever the translation does).
+    """
+
+    def walk(tree: Any) -> bool:
+        for op, arg in tree:
+            if op is _OP.LITERAL:
+                if 0xD800 <= arg <= 0xDFFF:
+                    return True
+            elif op in (_OP.NOT_LITERAL, _OP.ANY):
+                return True
+            elif op is _OP.IN:
+                negate = any(iop is _OP.NEGATE for iop, _ in arg)
+                hit = False
+                for iop, iarg in arg:
+                    if iop is _OP.LITERAL and 0xD800 <= iarg <= 0xDFFF:
+                        hit = True
+                    elif iop is _OP.RANGE and iarg[0] <= 0xDFFF and iarg[1] >= 0xD800:
+                        hit = True
+                if negate or hit:
+                    # a complemented set either matches surrogates or names them
+                    return True
+            elif op is _OP.BRANCH:
+                if any(walk(alt) for alt in arg[1]):
+                    return True
+            elif op is _OP.SUBPATTERN:
+                if walk(arg[3]):
+                    return True
+            elif op in (_OP.MAX_REPEAT, _OP.MIN_REPEAT):
+                if walk(arg[2]):
+                    return True
+        return False
+
+    return walk(_sre_tree(pattern))
+
+
 def _usable(code: int) -> bool:
     return 0 <= code <= 0x10FFFF and chr(code) not in LINE_BREAKS
 
